@@ -162,7 +162,7 @@ func (f *Fetcher) getAnnounces(id interface{}) []announceData {
 }
 
 func (f *Fetcher) processNotification(notification announcesBatch, fetchTimer *time.Timer) {
-	first := len(f.fetching) == 0
+	first := f.announces.Len() == 0
 
 	// filter only not known
 	notification.ids = f.callback.OnlyInterested(notification.ids)
@@ -199,7 +199,7 @@ func (f *Fetcher) processNotification(notification announcesBatch, fetchTimer *t
 		})
 	}
 
-	if first && len(f.fetching) != 0 {
+	if first && f.announces.Len() != 0 {
 		f.rescheduleFetch(fetchTimer)
 	}
 }
